@@ -41,9 +41,12 @@ type job struct {
 }
 
 func (j job) rng() *vlib.RNG {
-	p := map[string]uint64{"hist": 1, "kseq": 2, "race": 3, "fs": 4, "directed": 5, "fsk": 6}[j.Part]
+	p := map[string]uint64{"hist": 1, "kseq": 2, "race": 3, "fs": 4, "directed": 5, "fsk": 6, "stor": 7}[j.Part]
 	return vlib.NewRNG(j.Seed*1000003 + p*7919 + uint64(j.Index)*104729)
 }
+
+// storKJobs: how many of the storage-contract sequences (memstor.go) also become (K) cases, three each
+const storKJobs = 40
 
 type kcase struct {
 	index int
@@ -252,6 +255,16 @@ func runJob(c *collector, j job, methods []string, base string) (failed bool) {
 			c.violate(f, j, nil)
 			failed = true
 		}
+	case "stor":
+		cases, fails, detail := storJob(r, j.Index, base, j.Index < storKJobs, func(k string, n int) { res.Count(k, n) })
+		c.mu.Lock()
+		c.fcases = append(c.fcases, cases...)
+		c.mu.Unlock()
+		res.Eval(fmt.Sprintf("stor/%d", j.Index), true)
+		for _, f := range fails {
+			c.violate("storage contract: "+f, j, detail)
+			failed = true
+		}
 	case "fs":
 		fails, stats, notes := fileStorageChecks(r, base)
 		for k, v := range stats {
@@ -360,6 +373,13 @@ func main() {
 	}
 	for i := 0; i < nr; i++ {
 		jobs = append(jobs, job{Part: "race", Index: i, Seed: a.Seed})
+	}
+	nst := 1500
+	if a.Thorough() {
+		nst = 60000
+	}
+	for i := 0; i < nst; i++ {
+		jobs = append(jobs, job{Part: "stor", Index: i, Seed: a.Seed})
 	}
 	// interleave the kinds so that the slow ones do not pile up at the end
 	sort.SliceStable(jobs, func(x, y int) bool { return jobs[x].Index < jobs[y].Index })
